@@ -114,7 +114,7 @@ def interp(facts, stubs=()):
 
 # ------------------------------------------------------------------ verify_claims
 EXPECT = ["aud", "exp"]
-VALID = ["exp", "nbf"]
+VALID = ["exp", "nbf", "jti"]     # exp: validator and expectation; nbf, jti: validators without expectation (two of them: a pass that stops after the first is seen)
 KA, KC = "aud", "exp"      # KA: expected without validator; KC: expected and validator
 
 
@@ -162,6 +162,9 @@ def _table(I, outs, T, bid, line, file, label=""):
                 probs["C14.R4"].append("Ok is returned although the payload did not parse")
             if calls:
                 probs["C16.R2"].append("a validator runs although the payload did not parse")
+            if is_err and not any(c == "json(%s) does not parse" % T for c in s.cond):
+                var, _ev = _err_variant(I, o, r)
+                probs["C15.R2"].append("the parse fails with %s before the payload was even parsed - not because a claim is missing or differs in the JSON the token carries - when [%s]" % (var, cond[-200:]))
             continue
         # validators: arguments, at most once
         for name, es in per.items():
@@ -403,8 +406,7 @@ def registration_contracts(facts):
     (expected claims and validators: none, one under another key, one under the same key, both) and the maps afterwards are compared with
     the stated contract: the new entry is stored under the claim's key replacing an earlier one, every other entry of both maps is kept."""
     out = []
-    K, O, N = "K", "other", "fresh"
-    subsets = [[], [O], [K], [K, O]]
+    O, N = "other", "fresh"
 
     def find(name, owner):
         bs = [b for bid, b in facts.bodies.items() if (b.get("name") or bid.rsplit("::", 1)[-1]) == name and re.search(owner, bid) and "{closure" not in bid]
@@ -423,62 +425,68 @@ def registration_contracts(facts):
         bid, file, line = b["id"], v.file(), b["line"]
         probs = {"C15.R5": [], "C16.R5": []}
         und = None
-        for cs in subsets:
-            for vs in subsets:
-                I = interp(facts)
-                st = A.State()
-                claims0 = dict((k, "oldE_" + k) for k in cs)
-                vals0 = dict((k, "oldV_" + k) for k in vs)
-                pv = parser_value(st)
-                pv.fields["claims"] = MI.mapv("claims", [(A.StrV(k), A.Sym(n, attrs={"expected_of": k})) for k, n in claims0.items()])
-                pv.fields["claim_validators"] = MI.mapv("claim_validators", [(A.StrV(k), A.Sym(n, attrs={"validator": n})) for k, n in vals0.items()])
-                if prelude:
-                    pv = A.Struct("crate::prelude::paseto_parser::PasetoParser", None, {"version": A.UNIT, "purpose": A.UNIT, "parser": pv})
-                me = st.new_cell(pv)
-                newc = A.Sym("NEW", attrs={"claim_key": K, "expected_of": K})
-                newf = A.Sym("F", attrs={"validator": "F"})
-                want_c, want_v = dict(claims0), dict(vals0)
-                if name == "check_claim":
-                    args = [A.Ptr(me), newc]
-                    want_c[K] = "NEW"
-                elif name == "validate_claim":
-                    args = [A.Ptr(me), newc, A.Ptr(st.new_cell(newf))]
-                    want_c[K] = "NEW"
-                    want_v[K] = "F"
-                elif name == "extend_check_claims":
-                    args = [A.Ptr(me), MI.mapv("arg", [(A.StrV(K), A.Sym("NEW_K")), (A.StrV(N), A.Sym("NEW_fresh"))])]
-                    want_c.update({K: "NEW_K", N: "NEW_fresh"})
-                else:
-                    args = [A.Ptr(me), MI.mapv("arg", [(A.StrV(K), A.Sym("F_K")), (A.StrV(N), A.Sym("F_fresh"))])]
-                    want_v.update({K: "F_K", N: "F_fresh"})
-                outs = I.run(b, args, st)
-                bad = [o for o in outs if o.kind != "return" or o.state.unmodelled or any("undecided" in n for n in o.state.notes)]
-                if bad or not outs:
-                    o = bad[0] if bad else None
-                    und = "no outcome" if o is None else "%s; unmodelled %s; notes %s" % (o.kind, o.state.unmodelled[:2], [n for n in o.state.notes if "undecided" in n][:1])
-                    break
-                pre = "expected claims %s, validators %s" % (sorted(claims0), sorted(vals0))
-                for o in outs:
-                    me_v = MD.deref(I, o.state, A.Ptr(me))
-                    if prelude and isinstance(me_v, A.Struct):
-                        me_v = MD.deref(I, o.state, me_v.fields.get("parser"))
-                    gc = _showmap(I, o.state, me_v.fields.get("claims")) if isinstance(me_v, A.Struct) else None
-                    gv = _showmap(I, o.state, me_v.fields.get("claim_validators")) if isinstance(me_v, A.Struct) else None
-                    if gc is None or gv is None:
-                        und = "the parser's maps are not concrete after the call"
-                        break
+        for K in ("K", ""):
+            # (also a claim whose key is the empty string: the generic builder writes no such claim, but a token from elsewhere may carry
+            # one, and an expectation / validator registered for it counts like any other)
+            subsets = [[], [O], [K], [K, O]]
+            for cs in subsets:
+                for vs in subsets:
+                    I = interp(facts)
+                    st = A.State()
+                    claims0 = dict((k, "oldE_" + k) for k in cs)
+                    vals0 = dict((k, "oldV_" + k) for k in vs)
+                    pv = parser_value(st)
+                    pv.fields["claims"] = MI.mapv("claims", [(A.StrV(k), A.Sym(n, attrs={"expected_of": k})) for k, n in claims0.items()])
+                    pv.fields["claim_validators"] = MI.mapv("claim_validators", [(A.StrV(k), A.Sym(n, attrs={"validator": n})) for k, n in vals0.items()])
+                    if prelude:
+                        pv = A.Struct("crate::prelude::paseto_parser::PasetoParser", None, {"version": A.UNIT, "purpose": A.UNIT, "parser": pv})
+                    me = st.new_cell(pv)
+                    newc = A.Sym("NEW", attrs={"claim_key": K, "expected_of": K})
+                    newf = A.Sym("F", attrs={"validator": "F"})
+                    want_c, want_v = dict(claims0), dict(vals0)
                     if name == "check_claim":
-                        # whether an earlier validator under the same key survives a plain check_claim is not stated: not compared
-                        gv = dict((k, x) for k, x in gv.items() if k != K)
-                        wv = dict((k, x) for k, x in want_v.items() if k != K)
+                        args = [A.Ptr(me), newc]
+                        want_c[K] = "NEW"
+                    elif name == "validate_claim":
+                        args = [A.Ptr(me), newc, A.Ptr(st.new_cell(newf))]
+                        want_c[K] = "NEW"
+                        want_v[K] = "F"
+                    elif name == "extend_check_claims":
+                        args = [A.Ptr(me), MI.mapv("arg", [(A.StrV(K), A.Sym("NEW_K")), (A.StrV(N), A.Sym("NEW_fresh"))])]
+                        want_c.update({K: "NEW_K", N: "NEW_fresh"})
                     else:
-                        wv = want_v
-                    # an expectation may be kept as given or already serialised (to_value of it)
-                    gc = dict((k, "NEW" if x == "expected(%s)" % K and want_c.get(k) == "NEW" else x) for k, x in gc.items())
-                    if gc != want_c:
-                        probs["C15.R5"].append("from [%s] the expected claims become %s, not %s" % (pre, sorted(gc.items()), sorted(want_c.items())))
-                    if gv != wv:
-                        probs["C16.R5"].append("from [%s] the validators become %s, not %s" % (pre, sorted(gv.items()), sorted(wv.items())))
+                        args = [A.Ptr(me), MI.mapv("arg", [(A.StrV(K), A.Sym("F_K")), (A.StrV(N), A.Sym("F_fresh"))])]
+                        want_v.update({K: "F_K", N: "F_fresh"})
+                    outs = I.run(b, args, st)
+                    bad = [o for o in outs if o.kind != "return" or o.state.unmodelled or any("undecided" in n for n in o.state.notes)]
+                    if bad or not outs:
+                        o = bad[0] if bad else None
+                        und = "no outcome" if o is None else "%s; unmodelled %s; notes %s" % (o.kind, o.state.unmodelled[:2], [n for n in o.state.notes if "undecided" in n][:1])
+                        break
+                    pre = "expected claims %s, validators %s" % (sorted(claims0), sorted(vals0))
+                    for o in outs:
+                        me_v = MD.deref(I, o.state, A.Ptr(me))
+                        if prelude and isinstance(me_v, A.Struct):
+                            me_v = MD.deref(I, o.state, me_v.fields.get("parser"))
+                        gc = _showmap(I, o.state, me_v.fields.get("claims")) if isinstance(me_v, A.Struct) else None
+                        gv = _showmap(I, o.state, me_v.fields.get("claim_validators")) if isinstance(me_v, A.Struct) else None
+                        if gc is None or gv is None:
+                            und = "the parser's maps are not concrete after the call"
+                            break
+                        if name == "check_claim":
+                            # whether an earlier validator under the same key survives a plain check_claim is not stated: not compared
+                            gv = dict((k, x) for k, x in gv.items() if k != K)
+                            wv = dict((k, x) for k, x in want_v.items() if k != K)
+                        else:
+                            wv = want_v
+                        # an expectation may be kept as given or already serialised (to_value of it)
+                        gc = dict((k, "NEW" if x == "expected(%s)" % K and want_c.get(k) == "NEW" else x) for k, x in gc.items())
+                        if gc != want_c:
+                            probs["C15.R5"].append("from [%s] the expected claims become %s, not %s" % (pre, sorted(gc.items()), sorted(want_c.items())))
+                        if gv != wv:
+                            probs["C16.R5"].append("from [%s] the validators become %s, not %s" % (pre, sorted(gv.items()), sorted(wv.items())))
+                    if und:
+                        break
                 if und:
                     break
             if und:
